@@ -123,7 +123,7 @@ def families(tier):
         pre += ["c3 == 3", "b3 == 0", "b1 <= 1", "b2 <= 1", "fi == 0", "size == 2", "cb == 2", "1 <= c2 <= 2", "c1 <= 2"]
         parts = parts_product(kf=(0, 1), fk=range(4), c1=range(3), fin=(0, 1))
     else:
-        pre += ["b1 <= 4", "b2 <= 4", "b3 <= 4"]
-        parts = parts_product(kf=(0, 1), cb=(1, 2), fk=range(4), c1=range(4), c2=range(4), fin=(0, 1))
+        pre += ["c3 == 3", "b3 == 0", "b1 <= 1", "b2 <= 1", "fi <= 1", "1 <= c2 <= 2", "c1 <= 2"]
+        parts = parts_product(kf=(0, 1), cb=(1, 2), fk=range(4), c1=range(3), fin=(0, 1), size=(1, 2, 3))
     return [Family(name="fault", fn="tpl_fault", params=P, pre=pre, parts=parts,
-                   twin_pre=["kf == 0", "fk == 0", "c1 == 1", "fin == 0", "cb == 2"], twin_args=[2, 0, 2, 0, 0, 1, 0, 0, 1, 3, 0, 0, 0])]
+                   twin_pre=["kf == 0", "fk == 0", "c1 == 1", "fin == 0", "cb == 2"], twin_args=[2, 0, 2, 0, 0, 1, 0, 1, 1, 3, 0, 0, 0])]
